@@ -92,6 +92,7 @@ func C10(tier string) int {
 
 	// ---- part 1: the request product of C07 -------------------------------------------------
 	var cases []reqCase
+	warmUpOddCaseHeaders()
 	forEachReqCase(func(c reqCase) { cases = append(cases, c) })
 	chunk := 2000
 	parallel((len(cases)+chunk-1)/chunk, func(ci int) {
